@@ -696,7 +696,13 @@ func doCheck(b builds, cfg tierCfg) int {
 }
 
 func usesClock(b builds) bool {
-	return b.rep.Rewrites["time.Now"]+b.rep.Rewrites["time.Since"]+b.rep.Rewrites["time.Until"] > 0
+	n := 0
+	for k, v := range b.rep.Rewrites {
+		if strings.HasPrefix(k, "time.") || strings.HasPrefix(k, "(*time.") {
+			n += v
+		}
+	}
+	return n > 0
 }
 
 var soakN = 70000
